@@ -100,7 +100,7 @@ def engine_config(cfg, world):
     if cfg.get("relative") is not None:
         c["relative_includes"] = cfg["relative"]
     if cfg.get("context") is not None:
-        c["context"] = dict(cfg["context"])
+        c["context"] = dec_ctx(cfg["context"])
     if "allow" in cfg:
         c["provide_python_modules"] = cfg["allow"]
     if cfg.get("cache_size") is not None:
@@ -116,7 +116,7 @@ def model_cfg(cfg, world):
         "cwd": w + "/" + ROOT,
         "cache_enabled": e["cache_enabled"],
         "relative": e["relative"],
-        "context": sorted((cfg.get("context") or {}).items()),
+        "context": sorted(model_ctx(cfg.get("context") or {}).items()),
         "allow": cfg.get("allow"),
         "modules": [[m, sorted(a.items())] for m, a in sorted(MODULES.items())],
     }
@@ -136,7 +136,7 @@ def history_request(case, obs):
         elif op[0] == "delete":
             ops.append(["delete", w + "/" + op[1]])
         else:
-            ops.append(["render", subst(op[1], world), sorted(op[2].items())])
+            ops.append(["render", subst(op[1], world), sorted(model_ctx(op[2]).items())])
 
     def unworld(lst):
         return [[o[0], o[1]] for o in (lst or [])]
@@ -179,8 +179,11 @@ def gen_ref_name(rng, cfg_rel, from_file, target, root):
         name = "./" + (rel_name(target, from_file) if cfg_rel else target)
     elif style < 0.95:
         name = "missing.j2"
-    elif style < 0.98 and not root:
+    elif style < 0.97 and not root:
         name = "@T/" + ROOT + "/" + target
+    elif style < 0.985:
+        # absolute and not normalised: a dot-dot segment in the middle
+        name = ("/sub/../" + target) if root else ("@T/" + ROOT + "/other/../" + target)
     else:
         name = "/" + target
     return name
@@ -224,7 +227,41 @@ def gen_tmpl(rng, cfg, level, path, version, flat_imports, via_import=False, poo
 
 
 def gen_ctx(rng, prefix):
-    return {v: prefix + v for v in VARS if rng.random() < 0.5}
+    """variable -> value; mostly strings, sometimes a mapping / one-element set / number (encoded, see dec_val): a
+    configured value replaces the caller's value of the same name as a whole, whatever the two values are"""
+    out = {}
+    for v in VARS:
+        if rng.random() < 0.5:
+            r = rng.random()
+            if r < 0.75:
+                out[v] = prefix + v
+            elif r < 0.90:
+                out[v] = {"$d": {prefix + "k": prefix + v}}
+            elif r < 0.96:
+                out[v] = {"$s": [prefix + v]}
+            else:
+                out[v] = {"$n": len(prefix)}
+    return out
+
+
+def dec_val(v):
+    if isinstance(v, dict):
+        if "$d" in v:
+            return {k: dec_val(x) for k, x in v["$d"].items()}
+        if "$s" in v:
+            return set(v["$s"])
+        if "$n" in v:
+            return v["$n"]
+    return v
+
+
+def dec_ctx(ctx):
+    return {k: dec_val(v) for k, v in ctx.items()}
+
+
+def model_ctx(ctx):
+    """the model's values are the texts `{{ var }}` prints: str() of the value"""
+    return {k: str(dec_val(v)) for k, v in ctx.items()}
 
 
 def gen_cfg(rng, i, nested):
